@@ -9,7 +9,8 @@ import hist
 import progs as P
 
 COQ_FILES = ("Base/Bytes.v", "Base/Sha256.v", "L0_Hash/DdsHash.v", "L1_Args/ArgCtx.v", "L3_Sig/Program.v", "L3_Sig/Sig.v",
-             "L3_Sig/RunSig.v", "L4_Eval/DdsEval.v", "L4_Eval/RunEval.v", "L4_Eval/EvalProofs.v", "Properties/C01.v")
+             "L3_Sig/RunSig.v", "L4_Eval/DdsEval.v", "L4_Eval/RunEval.v", "L4_Eval/EvalProofs.v", "L3_Sig/SigTree.v", "L3_Sig/SigTreeProofs.v", "Properties/C01.v", "Properties/C01b.v")
+PROPERTY_FILES = ("C01", "C01b")
 EXTRACTED = ("ConstHash", "ConstSig", "ConstStages")
 ALLOWED_AXIOMS = ()
 
